@@ -25,6 +25,20 @@ theorem tsDiff_report (s : Sender) (now : Int) (e : Nat) (ts : UInt32) (k : Int)
   rw [report_rtp_toNat, hts]
   omega
 
+/-- `PacketNTP` once a report has been processed -/
+theorem packetNTP_processSR (r : Recv) (ntp : Nat) (rtp ts : UInt32) (h : r.rate ≠ 0) :
+    (r.processSR ntp rtp).packetNTP ts
+      = some (Ntp.decode ntp + (tsDiff ts rtp * 1000000000).tdiv r.rate) := by
+  simp [Recv.packetNTP, Recv.processSR, h]
+
+theorem reportWith_ntp (s : Sender) (now : Int) (e : Nat) :
+    (s.reportWith now e).ntp = Ntp.encode (s.lastNTP + (now - s.lastSystem)) := rfl
+
+/-- the arithmetic core of `packet_ntp_exact` -/
+theorem ntp_identity (R L d D Q τ k e : Int) (hQ : R * Q = (k - e) * 1000000000 - τ) :
+    R * (D + Q - L) - k * 1000000000 = (d * R - e * 1000000000) + R * (D - (L + d)) - τ := by
+  grind
+
 /-- `PacketNTP` after a sender report, decomposed exactly.  `k` is the signed distance in ticks of
 the queried timestamp from the sender's last packet (`ts = lastRTP + k mod 2^32`), `d` the system
 time elapsed between that packet and the report, `e` the ticks the report extrapolated.  Then
@@ -45,19 +59,16 @@ theorem packet_ntp_exact (s : Sender) (r : Recv) (now : Int) (e : Nat) (ts : UIn
         = ((now - s.lastSystem) * s.rate - e * 1000000000) + s.rate * ε - τ := by
   have hd := tsDiff_report s now e ts k hts hlo hhi
   have hrt := Ntp.decode_encode (s.lastNTP + (now - s.lastSystem)) hTlo hThi
-  have hR' : s.rate ≠ 0 := by omega
-  refine ⟨Ntp.decode (Ntp.encode (s.lastNTP + (now - s.lastSystem)))
-            + ((k - e) * 1000000000).tdiv s.rate,
-          Ntp.decode (Ntp.encode (s.lastNTP + (now - s.lastSystem))) - (s.lastNTP + (now - s.lastSystem)),
-          ((k - e) * 1000000000).tmod s.rate, ?_, by omega,
-          Int.lt_tmod_of_pos _ hR, Int.tmod_lt_of_pos _ hR, ?_⟩
-  · simp only [Recv.packetNTP, Recv.processSR, hrate, hR', hd]
-    simp [Sender.reportWith]
-  · have hq := Int.mul_tdiv_self ((k - e) * 1000000000) s.rate
-    generalize Ntp.decode (Ntp.encode (s.lastNTP + (now - s.lastSystem))) = D at *
-    generalize ((k - e) * 1000000000).tdiv s.rate = Q at *
-    generalize ((k - e) * 1000000000).tmod s.rate = τ at *
-    grind
+  have hR' : r.rate ≠ 0 := by omega
+  rw [packetNTP_processSR r _ _ ts hR', hd, reportWith_ntp, hrate]
+  generalize Ntp.decode (Ntp.encode (s.lastNTP + (now - s.lastSystem))) = D at hrt ⊢
+  have hq := Int.mul_tdiv_self ((k - e) * 1000000000) s.rate
+  have h1 := Int.lt_tmod_of_pos ((k - e) * 1000000000) hR
+  have h2 := Int.tmod_lt_of_pos ((k - e) * 1000000000) hR
+  generalize ((k - e) * 1000000000).tdiv s.rate = Q at hq ⊢
+  generalize ((k - e) * 1000000000).tmod s.rate = τ at hq h1 h2
+  refine ⟨D + Q, D - (s.lastNTP + (now - s.lastSystem)), τ, rfl, by omega, h1, h2, ?_⟩
+  exact ntp_identity s.rate s.lastNTP (now - s.lastSystem) D Q τ k e hq
 
 /-- **PacketNTP is within one clock tick plus 2 ns of the writer's time.**  If the ticks `e`
 extrapolated by the report are within one tick of the exact `d·rate/10^9` (one tick plus 1 ns of time
